@@ -16,6 +16,7 @@ Keys:  drop=<regex>   remove sub-items (methods) whose header matches
        only=<regex>   keep only sub-items whose header matches
        rw=R1,R2,...   rewrite rules to apply (see rewrites.py)
        cfg=<name>     keep lines guarded by #[cfg(<name>)] (default: dropped)
+       cfgoff=<name>  treat #[cfg(<name>)] as off for this item even in a view built with --cfg <name>
 """
 import difflib
 import os
@@ -100,7 +101,10 @@ def extract_item(repo, relfile, path, opts, cfgs):
         lines = [l for l, k in zip(lines, keep) if k]
         origin = [o for o, k in zip(origin, keep) if k]
     # cfg-guarded statement lines:  `#[cfg(NAME)]` on its own line guards the next statement/block
-    lines, origin, cfgnotes = rewrites.apply_cfg(lines, origin, cfgs, relfile)
+    cfgoff = [c for c in opts.get('cfgoff', '').split(',') if c]
+    if cfgoff and any(c in cfgs for c in cfgoff):
+        notes.append("cfg(%s) treated as off for this item (cfgoff): that hook is exercised by the replay stand-in only" % ','.join(cfgoff))
+    lines, origin, cfgnotes = rewrites.apply_cfg(lines, origin, [c for c in cfgs if c not in cfgoff], relfile)
     notes += cfgnotes
     # doc comments inside are harmless; leading derives re-attached
     if pre:
@@ -205,7 +209,7 @@ def parse_item_args(arg):
     opts = {}
     toks = arg.split()
     # trailing key=value tokens
-    while toks and re.match(r'^(drop|only|rw|cfg|props)=', toks[-1]):
+    while toks and re.match(r'^(drop|only|rw|cfg|cfgoff|props)=', toks[-1]):
         k, v = toks.pop().split('=', 1)
         opts[k] = v
     spec = ' '.join(toks)
